@@ -42,7 +42,12 @@ fn record_one(out: &mut TraceOut, rng: &mut Rng, label: &str, kind: &str, route:
         Ok(b) => b,
         Err(msg) => { out.push(json!({"e": "def", "label": label, "t": kind, "route": route, "len": l64(len), "runs": runs64(runs), "built": format!("PANIC: {}", msg), "obs": []})); return; },
     };
-    let (olen, oones, ozeros) = match &obj { AnyBv::Sparse(b) => (b.len(), b.count_ones(), b.count_zeros()), AnyBv::RL(b) => (b.len(), b.count_ones(), b.count_zeros()), AnyBv::Plain(b) => (b.len(), b.count_ones(), b.count_zeros()) };
+    // every call into the library is guarded: a panic of the code under test is data (a rejected event), never a failure of the harness
+    let counts = guarded(|| match &obj { AnyBv::Sparse(b) => (b.len(), b.count_ones(), b.count_zeros()), AnyBv::RL(b) => (b.len(), b.count_ones(), b.count_zeros()), AnyBv::Plain(b) => (b.len(), b.count_ones(), b.count_zeros()) });
+    let (olen, oones, ozeros) = match counts {
+        Ok(c) => c,
+        Err(msg) => { out.push(json!({"e": "def", "label": label, "t": kind, "route": route, "len": l64(len), "runs": runs64(runs), "built": format!("PANIC in len / count_ones / count_zeros: {}", msg), "obs": []})); return; },
+    };
     out.push(json!({"e": "def", "label": label, "t": kind, "route": route, "len": l64(len), "runs": runs64(runs), "built": "ok", "obs": [l64(olen), l64(oones), l64(ozeros)]}));
     if let AnyBv::Sparse(sv) = &obj {
         let elems = crate::layout::to_elements(&crate::layout::to_bytes(sv));
@@ -51,8 +56,12 @@ fn record_one(out: &mut TraceOut, rng: &mut Rng, label: &str, kind: &str, route:
         stats["widths"][&key] = json!(stats["widths"][&key].as_u64().unwrap_or(0) + 1);
     }
     if let AnyBv::RL(rv) = &obj {
-        let items: Vec<Value> = { let mut it = rv.run_iter(); let mut v = Vec::new(); while let Some((s, l)) = it.next() { v.push(json!([l64(s), l64(l), l64(it.offset()), l64(it.rank()), l64(it.rank_zero())])); } v };
-        out.push(json!({"e": "runs", "items": items}));
+        let items = guarded(|| { let mut it = rv.run_iter(); let mut v = Vec::new(); while let Some((s, l)) = it.next() { v.push(json!([l64(s), l64(l), l64(it.offset()), l64(it.rank()), l64(it.rank_zero())])); if v.len() > 100_000 { break; } } v });
+        match items {
+            Ok(items) => out.push(json!({"e": "runs", "items": items})),
+            // a panic while iterating: an event no specification accepts
+            Err(msg) => { out.push(json!({"e": "panic", "what": format!("run_iter: {}", msg)})); return; },
+        }
     }
     // arguments: around every run edge, the ends of the universe, powers of two, the extremes
     let mut pos: Vec<usize> = vec![0, 1, len.saturating_sub(1), len, len.saturating_add(1), 1 << 63, usize::MAX - 1, usize::MAX, (1 << 63) - 1, (1usize << 32) + 1];
